@@ -46,3 +46,46 @@ Proof.
   split; [discriminate|]. split; [exact H2|exact H5].
 Qed.
 Print Assumptions barrier_single_consumer_refuted.
+
+(* In every configuration (any count >= 1, any number of fibers, any numbers of
+   rounds, any schedule): the k-th executed fetch_add fetches k-1 (arrival numbers
+   are 0,1,2,... in execution order, one arrival per (fiber, call)), and a call
+   returns 1 (serial fiber) exactly when its arrival number is = count-1 modulo
+   count, 0 otherwise — hence exactly one serial fiber in every group of count
+   consecutive arrivals, whatever else goes wrong. *)
+Theorem barrier_one_serial_per_round : forall count rounds x,
+  ireach count rounds x ->
+  word (mem (base x)) 0%nat = Z.of_nat (length (arr x)) /\
+  (forall i t k v, nth_error (arr x) i = Some (t, k, v) -> v = Z.of_nat i) /\
+  NoDup (map fst (arr x)) /\ NoDup (map fst (rets x)) /\
+  (forall t k r, In (t, k, r) (rets x) ->
+     exists v, In (t, k, v) (arr x) /\
+               ((r = 1 /\ (v + 1) mod count = 0) \/ (r = 0 /\ (v + 1) mod count <> 0))).
+Proof. intros count rounds x R. exact (one_serial_of_l1 count x (ireach_l1 count rounds x R)). Qed.
+Print Assumptions barrier_one_serial_per_round.
+
+(* In every configuration: no call returns before count fetch_adds were executed. *)
+Theorem barrier_no_return_before_count : forall count rounds x t k r,
+  1 <= count -> ireach count rounds x -> In (t, k, r) (rets x) ->
+  count <= Z.of_nat (length (arr x)).
+Proof. intros count rounds x t k r. exact (no_return_before_count count rounds x t k r). Qed.
+Print Assumptions barrier_no_return_before_count.
+
+(* Exactly count fibers, one round each, any schedule.
+   (1) nobody has returned unless count distinct fibers executed their fetch_add;
+   (2) at most count fetch_adds;
+   (3) a fiber that returned 1 is the one that fetched count-1, and (4) it is unique. *)
+Theorem barrier_single_round_safety : forall count rounds x,
+  1 <= count -> length rounds = Z.to_nat count -> Forall (fun r => r = 1%nat) rounds ->
+  ireach count rounds x ->
+  round_safe_arrived count x /\
+  Z.of_nat (length (arr x)) <= count /\
+  (forall t k, In (t, k, 1) (rets x) -> k = 1%nat /\ In (t, 1%nat, count - 1) (arr x)) /\
+  (forall t t' k k', In (t, k, 1) (rets x) -> In (t', k', 1) (rets x) -> t = t' /\ k = k').
+Proof. exact single_round_facts. Qed.
+Print Assumptions barrier_single_round_safety.
+
+(* count = 1 (every call is serial): round safety for any number of rounds. *)
+Theorem barrier_reuse_count_1 : forall rounds x, ireach 1 rounds x -> round_safe 1 x.
+Proof. exact round_safe_count1. Qed.
+Print Assumptions barrier_reuse_count_1.
